@@ -304,13 +304,14 @@ class Obl:
         self.t0 = time.time()
         self.report = report
 
-    def done(self, ex_list, status, detail='', sample=None, key=None, paths=0, extra_queries=0, extra_solver=0.0):
+    def done(self, ex_list, status, detail='', sample=None, key=None, paths=0, extra_queries=0, extra_solver=0.0, independent_of=None):
         o = self.o
         o.wall_s = time.time() - self.t0
         o.queries = sum(e.queries for e in ex_list) + extra_queries
         o.solver_s = sum(e.solver_s for e in ex_list) + extra_solver
         o.paths = paths
-        unres = sorted({u for e in ex_list for u in getattr(e, 'unresolved_local', ())})
+        # independent_of: regex of unresolved generic trait calls whose outcome the reported fact does not depend on (stated by the obligation)
+        unres = sorted({u for e in ex_list for u in getattr(e, 'unresolved_local', ()) if not (independent_of and re.search(independent_of, u))})
         if status == 'violated' and unres:
             status, detail = 'inconclusive', (f'not decidable here: the paths run through {", ".join(unres[:3])} - trait methods of this crate called on a generic parameter, '
                                               f'whose instantiation this executor does not substitute (would-be finding: {detail})')
